@@ -19,7 +19,7 @@ PROP = 'C17'
 TITLE = 'byte input decoding'
 LEVEL = 'exploration'
 SHARDS = {'quick': 16, 'thorough': 16}
-FLOOR = {'quick': 300, 'thorough': 1500}
+FLOOR = {'quick': 300, 'thorough': 900}
 REQUIRED_MONITORS = {'compared': 1500, 'mode-effect-observed': 200}
 RULE = ('cells of the table encoding{utf-8, utf-16-le/be, utf-32-le/be, utf-16 (own BOM), latin-1, cp1251, cp1252, shift_jis, '
         'koi8-r, iso-8859-15} x BOM{yes,no} x XML declaration{none, without encoding, with encoding in either quote, random '
